@@ -1,13 +1,25 @@
 ------------------------------- MODULE Url_Trace -------------------------------
-(* Batch validation for C14.  Every trace is ONE observation of the real parse_url:            *)
+(* Batch validation for C14 and C15.  Every trace is ONE observation of the real code.        *)
+(*                                                                                              *)
+(* kind = "parse" (C14) - one call of the real parse_url:                                       *)
 (*   [s  |-> input (code points),                                                              *)
 (*    k  |-> "url" | "lpe" | "<other exception class>",                                        *)
 (*    u  |-> [scheme, auth, host, path, query, fragment |-> code points or NONE, port |-> int], *)
 (*    k2, u2 |-> the same for parse_url(u.url)  (the harness performs the re-parse),           *)
 (*    ref |-> <<>> or the reference reading <<kind, pos, port>> TLC emitted for s (echo)]       *)
-(* The monitor is Url!Verdict (the Rules); in addition the observation is compared with the     *)
-(* model's prediction (ModelParse) - a difference there is drift, not a violation.              *)
-(* Prints <<"VERDICT", tid, 1, clause, drift>> for every trace and never stops early.           *)
+(*   The monitor is Url!Verdict (the Rules); in addition the observation is compared with the   *)
+(*   model's prediction (ModelParse) - a difference there is drift, not a violation.            *)
+(*                                                                                              *)
+(* kind = "wire" (C15) - one request driven through a real PoolManager / ProxyManager over the  *)
+(*   in-memory network, with what the network, the scripted peer and the TLS seam saw:          *)
+(*   [s, px |-> proxy URL or NONE, k |-> "sent" | "<exception class>",                          *)
+(*    dials |-> <<host, port>>..., req |-> [m, t, hosts]..., snis |-> server_hostname...,       *)
+(*    vars |-> [s, k, samepool, samebytes]... (variant URLs driven the same way),               *)
+(*    exp |-> <<>> or the WireOf record TLC emitted for (s, px) (echo)]                         *)
+(*   The monitor is Url!WireClauses (the Rules: the set of failing clauses); drift = difference from the canonical WireOf    *)
+(*   where the Rules leave latitude.                                                            *)
+(*                                                                                              *)
+(* Prints <<"VERDICT", tid, 1, clause, drift, facts>> for every trace and never stops early.    *)
 EXTENDS Url, Json, IOUtils, TLCExt
 
 Traces == JsonDeserialize(IOEnv.TRACE_FILE)
@@ -17,6 +29,7 @@ TrSeeds == {<<>>}
 
 VARIABLE tid
 
+\* ---------------------------------------------------------------- C14
 EchoOK(e) == e.ref = <<>> \/ (LET R == Ref(e.s) IN e.ref = <<R.kind, R.pos, R.port>>)
 
 Drift(e) ==
@@ -33,10 +46,34 @@ Drift(e) ==
   ELSE IF e.u.fragment # m.u.fragment THEN "model:fragment"
   ELSE "-"
 
+ParseFacts(e) == LET R == Ref(e.s) IN
+  [kind |-> R.kind, http |-> IsHttp(R), emptyhost |-> R.host = <<>>, hostkind |-> HostKind(R.host),
+   model |-> ModelParse(e.s).k]
+
+\* ---------------------------------------------------------------- C15
+PxMode(o) == IF o.px = NONE THEN "none" ELSE "proxy"
+WireEchoOK(o) == o.exp = <<>> \/ (LET R == Ref(o.s) W == WireOf(R, PxMode(o), Ref(o.px)) IN
+                                   /\ o.exp.dialhost = W.dialhost /\ o.exp.dialport = W.dialport
+                                   /\ o.exp.hosthdr = W.hosthdr /\ o.exp.sni = W.sni /\ o.exp.target = W.target)
+\* drift: the observation differs from the canonical image although the Rules accept it
+WireDrift(o) ==
+  LET R == Ref(o.s) IN
+  IF o.k # "sent" THEN (IF WireDefined(R) THEN "model:expected-sent" ELSE "-")
+  ELSE IF ~WireDefined(R) \/ o.req = <<>> THEN "-"
+  ELSE LET W == WireOf(R, PxMode(o), Ref(o.px))
+           q == o.req[Len(o.req)] IN
+       IF W.mode # "forward" /\ q.t # W.target THEN "model:target"
+       ELSE IF W.mode = "direct" /\ q.hosts # <<W.hosthdr>> THEN "model:hosthdr"
+       ELSE "-"
+
 TInit == s = <<>> /\ tid = 1
 TNext == /\ tid <= Len(Traces)
          /\ LET e == Traces[tid] IN
-            PrintT(<<"VERDICT", tid, 1, IF EchoOK(e) THEN Verdict(e) ELSE "Machinery:EchoMismatch", Drift(e)>>)
+            IF e.kind = "parse"
+            THEN PrintT(<<"VERDICT", tid, 1, IF EchoOK(e) THEN Verdict(e) ELSE "Machinery:EchoMismatch", Drift(e),
+                          ToJson(ParseFacts(e))>>)
+            ELSE PrintT(<<"VERDICT", tid, 1, ToJson(IF WireEchoOK(e) THEN WireClauses(e) ELSE {"Machinery:EchoMismatch"}), WireDrift(e),
+                          ToJson(WireFacts(Ref(e.s), PxMode(e)))>>)
          /\ tid' = tid + 1 /\ UNCHANGED s
 TSpec == TInit /\ [][TNext]_<<s, tid>>
 =============================================================================
